@@ -274,19 +274,38 @@ pub fn rekind_ids(opcode: u16, args: Vec<Arg>) -> Vec<Arg> {
                     }
                 }
                 k if g.params.contains_key(k) => {
-                    let n = match &args[i] {
-                        Arg::Enum(_, n) => g.enum_params(k, *n).len(),
-                        Arg::Mask(_, n) => g.mask_params(k, *n).len(),
-                        _ => 0,
+                    let ps: Vec<String> = match &args[i] {
+                        Arg::Enum(_, n) => g.enum_params(k, *n),
+                        Arg::Mask(_, n) => g.mask_params(k, *n),
+                        _ => vec![],
                     };
                     out.push(args[i].clone());
                     i += 1;
-                    for _ in 0..n {
+                    // parameters take the kind the grammar lists for them (a u32 parameter may be an id or a literal)
+                    for p in &ps {
                         if i < args.len() {
-                            out.push(args[i].clone());
+                            let payload = match &args[i] {
+                                Arg::IdRef(v) | Arg::IdScope(v) | Arg::IdMemSem(v) | Arg::Lit32(v) => Some(*v),
+                                _ => None,
+                            };
+                            out.push(match (p.as_str(), payload) {
+                                ("IdRef", Some(v)) => Arg::IdRef(v),
+                                ("IdScope", Some(v)) => Arg::IdScope(v),
+                                ("IdMemorySemantics", Some(v)) => Arg::IdMemSem(v),
+                                ("LiteralBit32", Some(v)) => Arg::Lit32(v),
+                                (pk, Some(v)) if g.is_enum_kind(pk) => Arg::Enum(kind_static(pk), v),
+                                _ => args[i].clone(),
+                            });
                             i += 1;
                         }
                     }
+                }
+                "LiteralExtInstInteger" => {
+                    out.push(match &args[i] {
+                        Arg::IdRef(v) | Arg::Lit32(v) => Arg::ExtInstNo(*v),
+                        other => other.clone(),
+                    });
+                    i += 1;
                 }
                 _ => {
                     out.push(args[i].clone());
